@@ -11,14 +11,19 @@ Z3 = os.environ.get("VERIF_Z3", "/usr/bin/z3")
 
 class Pruner:
     def __init__(self, per_query_ms=3000):
-        self.p = subprocess.Popen([Z3, "-in"], stdin=subprocess.PIPE, stdout=subprocess.PIPE, stderr=subprocess.STDOUT, text=True, bufsize=1)
-        self.names = {}   # term (structural) -> name / literal
-        self.ufs = set()
+        self.per_query_ms = per_query_ms
         self.queries = 0
         self.pruned = 0
         self.unknown = 0
+        self.restarts = 0
         self.cache = {}
-        self._send("(set-logic ALL)\n(set-option :timeout %d)\n" % per_query_ms)
+        self._start()
+
+    def _start(self):
+        self.p = subprocess.Popen([Z3, "-in"], stdin=subprocess.PIPE, stdout=subprocess.PIPE, stderr=subprocess.STDOUT, text=True, bufsize=1)
+        self.names = {}   # term (structural) -> name / literal
+        self.ufs = set()
+        self._send("(set-logic ALL)\n(set-option :timeout %d)\n" % self.per_query_ms)
 
     def _send(self, s):
         self.p.stdin.write(s)
@@ -62,6 +67,22 @@ class Pruner:
         key = (tuple(sorted(set(hash(c) for c in pc))), hash(cond))
         if key in self.cache:
             return self.cache[key]
+        # the solver process accumulates every definition: restart it from time to time, and once if it dies
+        if len(self.names) > 400000:
+            self.close()
+            self.restarts += 1
+            self._start()
+        try:
+            r = self._ask(pc, cond)
+        except (RuntimeError, BrokenPipeError, OSError):
+            self.close()
+            self.restarts += 1
+            self._start()
+            r = self._ask(pc, cond)
+        self.cache[key] = r
+        return r
+
+    def _ask(self, pc, cond):
         ns = [self.name(c) for c in pc] + [self.name(cond)]
         self._send("(push)\n" + "\n".join(f"(assert {n})" for n in dict.fromkeys(ns)) + "\n(check-sat)\n(pop)\n")
         self.p.stdin.flush()
@@ -80,7 +101,6 @@ class Pruner:
             if line != "sat":
                 self.unknown += 1
             r = True
-        self.cache[key] = r
         return r
 
     def close(self):
